@@ -24,6 +24,7 @@ import (
 	"sort"
 	"strings"
 	"sync"
+	"sync/atomic"
 	"testing"
 	"time"
 
@@ -38,6 +39,7 @@ type bTarget struct {
 	Srcs   []string `json:"srcs"`
 	Gens   []string `json:"gens"`
 	Always bool     `json:"always"`
+	Alt    []string `json:"alt,omitempty"`  // dependencies written with a non-canonical spelling of their label
 	Pkg    string   `json:"pkg,omitempty"`  // package directory ("" = root)
 	Kind   string   `json:"kind,omitempty"` // how the env atom is referenced
 }
@@ -104,6 +106,8 @@ type bWorld struct {
 	crash   *bCrash
 	hits    map[string]int
 	proj    *Project // the project of the last build step (for session steps)
+	inflight atomic.Int64 // evaluating events without their succeeded/failed yet
+	evalSeen sync.Map
 }
 
 // value of the env atom of a target at a version, by value class; the sequences straddle
@@ -150,6 +154,15 @@ func (w *bWorld) mates(t string) []string {
 	}
 	sort.Strings(res)
 	return res
+}
+
+func bContains(xs []string, x string) bool {
+	for _, y := range xs {
+		if x == y {
+			return true
+		}
+	}
+	return false
 }
 
 func (w *bWorld) isDir(s string) bool {
@@ -234,7 +247,15 @@ func (w *bWorld) writeBuildFiles() error {
 					deps = append(deps, fmt.Sprintf("%q", ":"+d))
 					continue
 				}
-				deps = append(deps, fmt.Sprintf("%q", "//"+dt.Pkg+":"+d))
+				lbl := "//" + dt.Pkg + ":" + d
+				if bContains(t.Alt, d) {
+					// the same label with a redundant separator
+					lbl = "//" + dt.Pkg + "/:" + d
+					if dt.Pkg == "" {
+						lbl = "///:" + d
+					}
+				}
+				deps = append(deps, fmt.Sprintf("%q", lbl))
 			}
 			for _, s := range t.Srcs {
 				srcs = append(srcs, fmt.Sprintf("%q", relFrom(pkg, w.srcRel(s))))
@@ -466,13 +487,22 @@ type bEvents struct {
 
 func (e *bEvents) TargetUpToDate(l *label.Label) { e.w.logEvent("UpToDate", "l", e.w.nameOfLabel(l)) }
 func (e *bEvents) TargetEvaluating(l *label.Label, reason string, d diff.ValueDiff) {
+	e.w.evalSeen.Store(l.String(), true)
+	e.w.inflight.Add(1)
 	e.w.logEvent("Evaluating", "l", e.w.nameOfLabel(l), "reason", reason)
+}
+func (e *bEvents) done(l *label.Label) {
+	if _, ok := e.w.evalSeen.LoadAndDelete(l.String()); ok {
+		e.w.inflight.Add(-1)
+	}
 }
 func (e *bEvents) TargetSucceeded(l *label.Label, changed bool) {
 	e.w.logEvent("Succeeded", "l", e.w.nameOfLabel(l), "changed", changed)
+	e.done(l)
 }
 func (e *bEvents) TargetFailed(l *label.Label, err error) {
 	e.w.logEvent("Failed", "l", e.w.nameOfLabel(l), "msg", err.Error())
+	e.done(l)
 }
 func (e *bEvents) RunDone(err error) { e.w.logEvent("RunDone", "err", err != nil) }
 func (e *bEvents) Print(l *label.Label, line string) {
@@ -504,6 +534,32 @@ func bDigest(root string, state bool) string {
 		fmt.Fprintf(h, "F %s %x\n", rel, sha256.Sum256(b))
 		return nil
 	})
+	return hex.EncodeToString(h.Sum(nil))[:16]
+}
+
+// bSemantic digests what the persisted build state *means*: every record parsed and
+// re-marshalled (an absent record and an empty one mean the same: never built); the index and
+// stray temporaries are not part of it.
+func bSemantic(root string) string {
+	h := sha256.New()
+	base := filepath.Join(root, ".dawn", "build")
+	for _, kind := range []string{"targets", "sources"} {
+		ents, _ := os.ReadDir(filepath.Join(base, kind))
+		for _, e := range ents {
+			b, _ := os.ReadFile(filepath.Join(base, kind, e.Name()))
+			var info targetInfo
+			if err := json.Unmarshal(b, &info); err != nil {
+				fmt.Fprintf(h, "%s/%s unreadable %x\n", kind, e.Name(), sha256.Sum256(b))
+				continue
+			}
+			info.Doc = ""
+			if len(info.Dependencies) == 0 && info.Data == "" && !info.Rerun {
+				continue
+			}
+			nb, _ := json.Marshal(info)
+			fmt.Fprintf(h, "%s/%s %s\n", kind, e.Name(), nb)
+		}
+	}
 	return hex.EncodeToString(h.Sum(nil))[:16]
 }
 
@@ -563,6 +619,12 @@ func (w *bWorld) build(st *bStep) {
 	for _, f := range st.Fail {
 		w.fail[f] = true
 	}
+	// a dry run is a load plus a walk: its effect on the persisted state is measured from
+	// before the load
+	preState, preTree := "", ""
+	if st.Mode == "dry" {
+		preState, preTree = bSemantic(w.dir), bDigest(w.dir, false)
+	}
 	opts := w.options()
 	opts.PreferIndex = st.Index
 	var proj *Project
@@ -603,18 +665,37 @@ func (w *bWorld) build(st *bStep) {
 	}
 	for rep := 0; rep < reps; rep++ {
 		if st.Mode == "dry" {
-			w.logEvent("Digest", "when", "before", "state", bDigest(w.dir, true), "tree", bDigest(w.dir, false))
+			if rep == 0 && !st.Reuse {
+				w.logEvent("Digest", "when", "before", "state", preState, "tree", preTree)
+			} else {
+				w.logEvent("Digest", "when", "before", "state", bSemantic(w.dir), "tree", bDigest(w.dir, false))
+			}
 		}
 		mode := st.Mode
-		if rep > 0 || st.Reuse {
+		if (rep > 0 || st.Reuse) && st.Mode == "dry" {
+			w.logEvent("BuildBegin", "root", st.Root, "mode", "dry", "reuse", true)
+		} else if rep > 0 || st.Reuse {
 			w.logEvent("BuildBegin", "root", st.Root, "mode", "rerun")
 		} else {
 			w.logEvent("BuildBegin", "root", st.Root, "mode", mode)
 		}
-		rerr := proj.Run(w.rootLabel(st.Root), &RunOptions{Always: st.Mode == "always", DryRun: st.Mode == "dry"})
+		// a plain build passes no options, as watch mode does
+		var ropts *RunOptions
+		if st.Mode == "always" || st.Mode == "dry" {
+			ropts = &RunOptions{Always: st.Mode == "always", DryRun: st.Mode == "dry"}
+		}
+		rerr := proj.Run(w.rootLabel(st.Root), ropts)
+		if rerr != nil {
+			// after a cyclic-dependency error Run returns while other targets may still be
+			// running: let them finish before anything is measured
+			for i := 0; i < 400 && w.inflight.Load() != 0; i++ {
+				time.Sleep(5 * time.Millisecond)
+			}
+			time.Sleep(20 * time.Millisecond)
+		}
 		w.logEvent("BuildEnd", "root", st.Root, "err", rerr != nil, "msg", fmt.Sprint(rerr))
 		if st.Mode == "dry" {
-			w.logEvent("Digest", "when", "after", "state", bDigest(w.dir, true), "tree", bDigest(w.dir, false))
+			w.logEvent("Digest", "when", "after", "state", bSemantic(w.dir), "tree", bDigest(w.dir, false))
 		}
 		if st.Clean && st.Mode != "dry" && rerr == nil && rep == 0 {
 			same, what := w.cleanCompare(st.Root)
@@ -757,6 +838,15 @@ func (w *bWorld) apply(c *bCase, st *bStep, exe string) error {
 			}
 		}
 		w.logEvent("NonEdit", "kind", st.Kind)
+	case "reload":
+		// what watch mode does after a file change: Reload the same Project
+		if w.proj != nil {
+			err := w.proj.Reload()
+			w.logEvent("Load", "ok", err == nil, "msg", fmt.Sprint(err), "reload", true)
+			if err != nil {
+				w.proj = nil
+			}
+		}
 	case "fault":
 		// replace the sources (or generated files) directory by a regular file: every path
 		// below it then fails with ENOTDIR, which is not "does not exist"
@@ -781,6 +871,7 @@ func (w *bWorld) apply(c *bCase, st *bStep, exe string) error {
 				if w.generatorOf(s) == "" && w.srcVer[s] == 0 {
 					w.srcVer[s] = 1
 					w.writeSource(s)
+					w.logEvent("Edit", "kind", "src", "s", s, "v", bToken(w.srcPath(s)))
 				}
 			}
 			if err := w.writeBuildFiles(); err != nil {
